@@ -227,15 +227,51 @@ def _(a):
     return lambda: dsa.verify_(m, keyarg, sigarg)
 
 
-@op("dsa_recover", st.fixed_dictionaries({"q": key(), "msg": msg32(), "key_id": st.integers(-1, 5), "variant": st.sampled_from(["valid", "valid", "high-s", "r+1", "other-msg"])}))
+@op("dsa_recover", st.fixed_dictionaries({"q": key(), "msg": msg32(), "key_id": st.integers(-1, 5), "variant": st.sampled_from(["valid", "valid", "high-s", "r+1", "other-msg", "Q=inf", "Q=inf"])}))
 def _(a):
     m = bytes.fromhex(a["msg"])
     r, s = fastec.ecdsa_sign(m, a["q"])
+    if a["variant"] == "Q=inf":
+        # a signature anybody can write: K = k*G, r = x(K), s = c/k, so that s*K == c*G and the key recovered for K's own parity is infinity
+        c = int.from_bytes(m, "big") % N
+        k = a["q"]
+        K = fastec.mul(k, fastec.G)
+        r, s = K[0] % N, c * pow(k, -1, N) % N or 1
     if a["variant"] == "high-s": s = N - s
     if a["variant"] == "r+1": r += 1
     if a["variant"] == "other-msg": m = hashlib.sha256(m).digest()
     sig = dsa.Sig(r, s, check_validity=False)
     return lambda: [dsa.recover_pub_key_(a["key_id"], m, sig) if 0 <= a["key_id"] <= 3 else None, dsa.recover_pub_keys_(m, sig)] if a["key_id"] != 5 else dsa.recover_pub_key_(7, m, sig)
+
+
+@op("sig_assert", st.fixed_dictionaries({"q": key(), "msg": msg32(), "scheme": st.sampled_from(["dsa", "ssa"]), "variant": st.sampled_from(["valid", "K=inf", "K=inf", "bit-s", "other-msg", "s=0", "r=0"])}))
+def _(a):
+    """assert_as_valid_: the exception CLASS of a refusal, where verify_ folds every refusal into False. K=inf is a signature the key holder can write."""
+    m = bytes.fromhex(a["msg"])
+    d = a["q"]
+    if a["scheme"] == "dsa":
+        r, s = fastec.ecdsa_sign(m, d)
+        c = int.from_bytes(m, "big") % N
+        if a["variant"] == "K=inf":
+            r, s = (-c * pow(d, -1, N)) % N or 1, s  # u*G + v*Q = (c + r*d)/s * G = infinity
+        key = fastec.mul(d, fastec.G)
+    else:
+        sig = fastec.schnorr_sign(m, d)
+        r, s = int.from_bytes(sig[:32], "big"), int.from_bytes(sig[32:], "big")
+        P_ = fastec.mul(d, fastec.G)
+        dd = d if P_[1] % 2 == 0 else N - d
+        if a["variant"] == "K=inf":
+            r = fastec.mul(7 + d % 1000, fastec.G)[0]
+            e = int.from_bytes(fastec.tagged_hash("BIP0340/challenge", r.to_bytes(32, "big") + P_[0].to_bytes(32, "big") + m), "big") % N
+            s = e * dd % N  # s*G - e*P = infinity
+        key = P_[0]
+    if a["variant"] == "bit-s": s ^= 1
+    if a["variant"] == "other-msg": m = hashlib.sha256(m).digest()
+    if a["variant"] == "s=0": s = 0
+    if a["variant"] == "r=0": r = 0
+    mod = dsa if a["scheme"] == "dsa" else ssa
+    sig_obj = mod.Sig(r, s, check_validity=False)
+    return lambda: mod.assert_as_valid_(m, key, sig_obj)
 
 
 @op("ssa_sign", st.fixed_dictionaries({"q": badkey(), "msg": st.binary(max_size=70).map(bytes.hex), "aux": msg32(), "auxlen": st.sampled_from([32, 32, 31, 33])}))
